@@ -725,6 +725,19 @@ m('statehook-modreduced','C11',['STATE-HOOK'],'std/math/emulated/element.go','''
 		return
 	}
 ''',note='GnarkInitHook keeps the modReduced trust flag of elements that already have limbs')
+edit('constraint/blueprint_logderivlookup.go',[('''	b.cachedEntries = make([]E, 0, capacity)
+	b.cachedOffset = 0
+}
+''','''	b.clearCache(capacity)
+}
+
+// clearCache drops what the previous solve cached.
+func (b *BlueprintLookupHint[E]) clearCache(capacity int) {
+	b.cachedOffset = 0
+	b.cachedEntries = make([]E, 0, capacity)
+}
+''')])
+save('benign-resetdef-helper','C06','constraint/blueprint_logderivlookup.go','Reset delegates the two assignments to a helper method')
 json.dump({'comment':'selftest mutants: each patch breaks one rule instance and must be detected by the listed rule(s) of its property; produced by tools/make_selftest.py','mutants':M}, open(os.path.join(root,'selftest','mutants.json'),'w'), indent=1)
 subprocess.run(['git','-C','/repo','worktree','remove','--force',WT],capture_output=True)
 print(len(M),'mutants')
